@@ -455,26 +455,7 @@ func init() {
 		c.commandCases("client", c.pick(40, 300))
 	}
 
-	c07walk := func(c *ctx) {
-		// the client's walk: packets of decodable, undecodable (no record in the client) and short-data kinds in any
-		// order; the scan is called again after it has refused a packet (it must move on, never deliver one twice)
-		for i := 0; i < c.pick(150, 1500); i++ {
-			var payload []byte
-			np := 1 + c.rng.Intn(6)
-			for k := 0; k < np; k++ {
-				payload = append(payload, c.packet([]int{0, 0, 1, 2, 2, 3}[c.rng.Intn(6)])...)
-			}
-			if c.rng.Intn(5) == 0 {
-				payload = payload[:c.rng.Intn(len(payload)+1)]
-			}
-			stream := []byte(xsens.NewMessage(xsens.MessageIdentifierMTData2, payload))
-			ops := []cop{{kind: "receive"}}
-			for k := 0; k < np+3; k++ {
-				ops = append(ops, cop{kind: "scan"}, cop{kind: "rawpkt"}, cop{kind: "dtype"})
-			}
-			c.emitClient("client", stream, nil, io.EOF, false, nil, ops)
-		}
-	}
+	c07walk := func(c *ctx) { c.walkCases(c.pick(150, 1500)) }
 	defer func() {
 		inner := props["C07"]
 		props["C07"] = func(c *ctx) { inner(c); c07walk(c); c.framingBoundary(0x36) }
